@@ -226,6 +226,8 @@ class OpenModel:
                     truth = (v == "true") == is_eq
                     if kinds[0][2] == "UnexpectedEof" and truth:
                         out.add("eof")
+                    elif kinds[0][2] == "UnexpectedEof":
+                        out.add("not-eof")
                     elif truth:
                         out.add("other-kind:" + kinds[0][2])
             # a search over bytes with a `byte != 0` (or `== 0`) predicate: position/find/any say "a non-zero byte exists"
@@ -357,7 +359,13 @@ class OpenModel:
                 if "no_trunc" in fl:
                     can = False
                 if "eof" in fl:
+                    if other and not eof:
+                        return None          # the kind of this same error was already found not to be UnexpectedEof: infeasible
                     eof = True
+                if "not-eof" in fl:
+                    if eof:
+                        return None
+                    other = True
                 if any(x.startswith("other-kind") for x in fl):
                     other = True
                 if "eof_reached" in fl:
@@ -371,7 +379,7 @@ class OpenModel:
                     gap = True
             return (pend, can, eof, reached, nonzero, gap, tdone, other)
         self.step = step
-        self.seen = run_monitor(P, (False, False, False, False, False, False, False, False), step)
+        self.seen = run_monitor(P, (False, False, False, False, False, False, False, False), step, max_states=6000000)
         return self.seen
 
 
